@@ -48,7 +48,7 @@ void cross_vv(const T *p, int, pbt::Ctx &)
     int j = (i + 1) % 3, k = (i + 2) % 3;  // r_i = a_j b_k - a_k b_j
     if constexpr (std::is_integral<T>::value) {
       T e = T(A[j] * B[k] - A[k] * B[j]);
-      chk_exact(&e, &act[i], 1, "cross");
+      chk_exact(&e, &act[i], 1, "cross", i);
     } else {
       long double t1 = (long double)A[j] * B[k], t2 = (long double)A[k] * B[j];
       chk_close(t1 - t2, act[i], 8 * EPS<T> * (fabsl(t1) + fabsl(t2)), i, "cross");
@@ -129,7 +129,7 @@ void interp_v(const T *p, int, pbt::Ctx &)
   for (int i = 0; i < S::N; ++i) {
     if constexpr (std::is_integral<T>::value) {
       T e = T(p[12] * p[i] + p[13] * p[4 + i] + p[14] * p[8 + i]);
-      chk_exact(&e, &act[i], 1, "interpolate_uv");
+      chk_exact(&e, &act[i], 1, "interpolate_uv", i);
     } else {
       long double t0 = (long double)p[12] * p[i], t1 = (long double)p[13] * p[4 + i], t2 = (long double)p[14] * p[8 + i];
       chk_close(t0 + t1 + t2, act[i], 8 * EPS<T> * (fabsl(t0) + fabsl(t1) + fabsl(t2)), i, "interpolate_uv");
@@ -152,7 +152,7 @@ void madd_v(const T *p, int, pbt::Ctx &)
   for (int i = 0; i < 3; ++i) {
     if constexpr (std::is_integral<T>::value) {
       T e = T((long long)p[i] * (long long)p[4 + i] + (long long)p[8 + i]);
-      chk_exact(&e, &act[i], 1, "madd");
+      chk_exact(&e, &act[i], 1, "madd", i);
     } else {
       long double fa = (float)p[i], fb = (float)p[4 + i], fc = (float)p[8 + i];
       chk_close(fa * fb + fc, act[i], 8 * EPS<float> * (fabsl(fa * fb) + fabsl(fc)), i, "madd");
